@@ -88,6 +88,10 @@ void CONodeStart(CO_NODE *node)
 */
 void CONodeStop(CO_NODE *node)
 {
+#if USE_CSDO
+    /* running SDO client transfers end here: the application is informed */
+    COCSdoAbortAll(node->CSdo);
+#endif
     COTmrClear(&node->Tmr);
     CONmtSetMode(&node->Nmt, CO_INVALID);
     COIfCanClose(&node->If);
